@@ -1081,6 +1081,21 @@ class SymCtx(BaseCtx):
             self._learn(az, bz)
         return r
 
+    def eq_rel(self, a, b, label, rel=Fraction(1, 10 ** 12)):
+        """a == b up to a relative 1e-12: for values that carry non-round float constants computed by the real code
+        outside the proxies (data tables of the builder classes), whose binary64 rounding the real-number reading would
+        otherwise take at face value.  Exact equality is tried first."""
+        if not isinstance(a, Sym) and not isinstance(b, Sym):
+            return self.eq(a, b, label)
+        az, bz = to_z3(a), to_z3(b)
+        if az.eq(bz) or poly_equal(az, bz):
+            self.stats["obligations"] += 1
+            self.stats["syntactic"] += 1
+            self.obligations.append(Obligation(label, "syntactic"))
+            return True
+        tol = z3.RealVal(rel) * (z3.If(az >= 0, az, -az) + z3.If(bz >= 0, bz, -bz))
+        return self._decide_obligation(label, z3.Or(az - bz > tol, bz - az > tol))
+
     def _learn(self, az, bz):
         def num(t):
             return z3.is_rational_value(t) or z3.is_int_value(t)
@@ -1388,6 +1403,9 @@ class ConcCtx(BaseCtx):
         if not ok:
             self.failures.append((label, f"{float(a)!r} != {float(b)!r}"))
         return ok
+
+    def eq_rel(self, a, b, label, rel=None):
+        return self.eq(a, b, label)
 
     def le(self, a, b, label):
         a, b = float(a), float(b)
